@@ -131,7 +131,7 @@ CHECKS = {
         assumptions=[],
     ),
     "C06": dict(
-        packs=["c06", "c05", "c16"], level="other",
+        packs=["c06", "c05", "c16", "c07", "degree_c07"], level="other",
         explanation="R06.1 complete inside/outside split tables over StrokeAlignment (outside + inside = width, larger half inside), R06.2 fill_area/stroke_area offsets (solid: -inside / +outside, non-solid fill: 0) and Styled forwards, "
                     "R06.3 segment/colour pairing: draw path (draw_stroke, draw_stroke_and_fill) and pixel path (three StyledPixelsIterator::next) assign the same colour role to the same scanline segment, segment accessors span the documented ranges, "
                     "R06.4 both renderers of rectangle/circle/ellipse/rounded rectangle take their areas from style.stroke_area/fill_area of the unmodified primitive (call sites followed through helpers introduced by an edit), R06.5 axis consistency of the stroke/fill area code, R06.6 a row of the rounded rectangle's fill area in which the column search finds nothing carries no fill range. and a non-empty fill range starts at a column found by searching the stroke scanline with fill_area.contains().",
@@ -256,7 +256,7 @@ DEPENDS = {
     "C02": "Also runs the Rectangle rules of C16 (styled boxes are built with Rectangle::offset / with_corners / envelope).",
     "C03": "Also runs the Rectangle rules of C16 (clipping is Rectangle::intersection / contains / bottom_right).",
     "C05": "Also runs the corner rules of C18 (confined radii, quadrants) and the Rectangle rules of C16 (rectangle points / contains).",
-    "C06": "Also runs the membership rules of C05 (the fill range of a styled scanline is fill_area.contains()) and the Rectangle rules of C16 (fill_area / stroke_area are Rectangle::offset).",
+    "C06": "Also runs the membership rules of C05 (the fill range of a styled scanline is fill_area.contains()) and the Rectangle rules of C16 (fill_area / stroke_area are Rectangle::offset), and the translation rules of C07 (the areas of circles, ellipses and rounded rectangles are rebuilt around center(): a centre that rounds differently at negative coordinates shifts them against the shape).",
     "C07": "Also runs the text layout rules of C15 (a text is positioned relative to its position on every path) and the image / polyline wiring R01.5, R01.2 (an image is drawn on target.translated(offset), a polyline adds its translate exactly once) and the adapter / trait-default rules of C03 (a translated drawable that is cut by the target's edge goes through them).",
     "C08": "Also runs R01.4 (an empty scanline never reaches the width subtraction).",
     "C09": "Also runs the raw load / iteration rules of C11 (pixel() and the colour stream read through RawDataSlice) and the adapter / trait-default rules of C03 (the image's colour stream reaches the target through fill_contiguous of the adapters and the default).",
